@@ -195,6 +195,7 @@ def _append(ck, p, byk):
         w = [(bi, t) for bi, t in f.calls() if inst_of(t) == "harper_stats::{impl}::write"]
         ck.decide(rule, "Backend::save_stats:writer", len(w) == 1, f.span, "Stats::write calls: %d" % len(w))
         # save_stats appends every record held in memory and keeps them: a second call in the same session writes them again
+        pv = Prov(f)
         drains = any(method(t) in ("clear", "drain", "take", "truncate", "split_off") and "records" in arg_fields(pv, t["args"][0]) for _, t in f.calls() if t["args"]) or \
             any(norm(inst_of(t)) in ("core::mem::take", "core::mem::replace") and "stats" in str(arg_fields(pv, t["args"][0])) for _, t in f.calls() if t["args"])
         callers = sorted({keyname(p, g).replace("::{closure}", "") for g in p.fns.values() if g.name.startswith("harper_ls::") for _, t in g.calls() if norm(inst_of(t)) == "harper_ls::backend::{impl}::save_stats"})
